@@ -1,8 +1,10 @@
 //! The `map` core library module
 
-use super::{iterator::adaptors, value_sort::compare_values};
+use super::{
+    iterator::adaptors,
+    value_sort::{compare_values, try_sort_by},
+};
 use crate::{Result, prelude::*};
-use std::cmp::Ordering;
 
 /// Initializes the `map` core library module
 pub fn make_module() -> KMap {
@@ -201,33 +203,24 @@ pub fn make_module() -> KMap {
 
         match map_instance_and_args(ctx, expected_error)? {
             (KValue::Map(m), []) => {
-                let mut error = None;
-                m.data_mut().sort_by(|key_a, _, key_b, _| {
-                    if error.is_some() {
-                        return Ordering::Equal;
-                    }
-
+                // The entries are taken out of the map, sorted, and put back under a single borrow
+                let mut data = m.data_mut();
+                let mut entries: Vec<_> = data.drain(..).collect();
+                let result = try_sort_by(&mut entries, |(key_a, _), (key_b, _)| {
                     match key_a.partial_cmp(key_b) {
-                        Some(ordering) => ordering,
-                        None => {
-                            // This should never happen, ValueKeys can only be made with sortable values
-                            error = Some(runtime_error!("invalid map key encountered"));
-                            Ordering::Equal
-                        }
+                        Some(ordering) => Ok(ordering),
+                        // This should never happen, ValueKeys can only be made with sortable values
+                        None => runtime_error!("invalid map key encountered"),
                     }
                 });
+                data.extend(entries);
+                drop(data);
 
-                if let Some(error) = error {
-                    error
-                } else {
-                    Ok(KValue::Map(m.clone()))
-                }
+                result.map(|_| KValue::Map(m.clone()))
             }
             (KValue::Map(m), [f]) if f.is_callable() => {
                 let m = m.clone();
                 let f = f.clone();
-                let mut error = None;
-
                 let get_sort_key = |vm: &mut KotoVm,
                                     cache: &mut ValueMap,
                                     key: &ValueKey,
@@ -240,46 +233,24 @@ pub fn make_module() -> KMap {
                 };
 
                 let mut cache = ValueMap::with_capacity(m.len());
-                m.data_mut().sort_by(|key_a, value_a, key_b, value_b| {
-                    if error.is_some() {
-                        return Ordering::Equal;
-                    }
-
+                // The entries are taken out of the map, sorted, and put back under a single borrow
+                let mut data = m.data_mut();
+                let mut entries: Vec<_> = data.drain(..).collect();
+                let result = try_sort_by(&mut entries, |(key_a, value_a), (key_b, value_b)| {
                     let value_a = match cache.get(key_a) {
                         Some(value) => value.clone(),
-                        None => match get_sort_key(ctx.vm, &mut cache, key_a, value_a) {
-                            Ok(val) => val,
-                            Err(e) => {
-                                error.get_or_insert(Err(e));
-                                KValue::Null
-                            }
-                        },
+                        None => get_sort_key(ctx.vm, &mut cache, key_a, value_a)?,
                     };
                     let value_b = match cache.get(key_b) {
                         Some(value) => value.clone(),
-                        None => match get_sort_key(ctx.vm, &mut cache, key_b, value_b) {
-                            Ok(val) => val,
-                            Err(e) => {
-                                error.get_or_insert(Err(e));
-                                KValue::Null
-                            }
-                        },
+                        None => get_sort_key(ctx.vm, &mut cache, key_b, value_b)?,
                     };
-
-                    match compare_values(ctx.vm, &value_a, &value_b) {
-                        Ok(ordering) => ordering,
-                        Err(e) => {
-                            error.get_or_insert(Err(e));
-                            Ordering::Equal
-                        }
-                    }
+                    compare_values(ctx.vm, &value_a, &value_b)
                 });
+                data.extend(entries);
+                drop(data);
 
-                if let Some(error) = error {
-                    error
-                } else {
-                    Ok(KValue::Map(m))
-                }
+                result.map(|_| KValue::Map(m))
             }
             (instance, args) => unexpected_args_after_instance(expected_error, instance, args),
         }
